@@ -222,7 +222,7 @@ func checkLoneScan(p *Program, r *Result, fn *ssa.Function) {
 		return
 	}
 	// the loop must be left only through its header (no break) or by returns
-	if len(scan.Exit.Preds) != 1 || scan.Exit.Preds[0] != scan.Header {
+	if len(scan.earlyExits()) != 0 {
 		r.Bad(sub, "scan", r.pos(scanRet), "the scan loop can be left early (break): later stanzas would not be examined")
 		return
 	}
